@@ -78,6 +78,7 @@ static void case_random(const Args &a, long idx, bool wantDesc, CaseResult &res)
     if (R.coin(0.2)) opts.wholeTreeRouting = R.coin() ? TreeRoutingType::STRICT : TreeRoutingType::CORE_ATTACHMENT;
     std::string desc = JObj().str("kind", kind).raw("nodes_cx_cy_w_h", nj.done()).raw("edges", ej.done()).i("peeledTreeRouting", (int)opts.peeledTreeRouting).i("wholeTreeRouting", (int)opts.wholeTreeRouting).b("useACAforLinks", opts.useACAforLinks).b("do_near_align", opts.do_near_align).i("preferredAspectRatio", (int)opts.preferredAspectRatio).num("nodePaddingScalar", opts.nodePaddingScalar).done();
     Digest D; D.s(desc); res.digest = D.h; res.gen = kind; if (wantDesc) res.desc = desc;
+    if (a.pl("describe_only", 0)) { res.inconclusive = "describe-only"; return; }   // (for writing up a case that hangs)
     // non-trivial: has a core and at least one peeled tree, i.e. some leaf and some cycle
     { std::vector<int> deg(n, 0); for (auto &e : E) { deg[e.first]++; deg[e.second]++; } bool leaf = false; for (int d : deg) if (d == 1) leaf = true; bool cyc = (int)E.size() >= n; res.nontrivial = leaf && cyc; }
     set_stage("doHOLA");
